@@ -6,7 +6,7 @@ EXTENDS Dir19
 Obs == ndJsonDeserialize(IOEnv.OBS)
 VARIABLE l
 InitT == l \in 1..Len(Obs) /\ DirInit(<<>>, <<>>)
-NextT == UNCHANGED <<l, users, groups, allowAnon, reply>>
+NextT == UNCHANGED <<l, users, groups, allowAnon, reply, tokenGroups>>
 BindConforms ==
   LET o == Obs[l] IN \A i \in 1..Len(o.binds) :
      LET b == o.binds[i]  exp == BindResult(o.users, o.anon, b.dn, b.pw) IN
